@@ -324,37 +324,61 @@ Print Assumptions C15_reset_stream_at_regression.
     In the packet-level model that is replayed against real connections with and without a qlog
     tracer, the first failing frame decides the packet: the verdict (= the connection's close
     error) and the state do not depend on the frames behind it. *)
-Theorem C15_packet_first_error_decides : forall pre g g1 fr0 f o s2 e fr rest rest',
-  handle_packet g pre = (g1, None, fr0) -> gframe_op f = Some o ->
+Theorem C15_packet_first_error_decides : forall tr pre g g1 fr0 f o s2 e fr rest,
+  handle_packet tr g pre = (g1, None, fr0) -> gframe_op f = Some o ->
   tstep (g_sm g1) o = (s2, RErr e, fr) ->
-  handle_packet g (pre ++ f :: rest) =
-    (mkG s2 (g_cancel g1) (g_final g1) (g_done g1) (g_nextA g1), Some e, fr0 ++ fr) /\
-  handle_packet g (pre ++ f :: rest) = handle_packet g (pre ++ f :: rest').
-Proof.
-  intros. split; [eapply handle_packet_first_error; eauto|eapply handle_packet_rest_irrelevant; eauto].
-Qed.
+  (* frames behind the failing one are never handled *)
+  fst (fst (handle_packet tr g (pre ++ f :: rest))) = fst (fst (handle_packet tr g (pre ++ [f]))) /\
+  snd (handle_packet tr g (pre ++ f :: rest)) = snd (handle_packet tr g (pre ++ [f])) /\
+  (* the packet fails (the connection is closed with an error) *)
+  snd (fst (handle_packet tr g (pre ++ f :: rest))) <> None /\
+  (* with the failing frame's error, unless a tracer is attached AND a malformed frame follows *)
+  (tr = false \/ existsb is_malformed rest = false ->
+   snd (fst (handle_packet tr g (pre ++ f :: rest))) = Some e).
+Proof. exact handle_packet_rest. Qed.
 Print Assumptions C15_packet_first_error_decides.
 
+(** the exact verdict, including the tracer-dependent case *)
+Theorem C15_packet_verdict : forall tr pre g g1 fr0 f o s2 e fr rest,
+  handle_packet tr g pre = (g1, None, fr0) -> gframe_op f = Some o ->
+  tstep (g_sm g1) o = (s2, RErr e, fr) ->
+  handle_packet tr g (pre ++ f :: rest) =
+    (mkG s2 (g_cancel g1) (g_final g1) (g_done g1) (g_nextA g1),
+     Some (if tr && existsb is_malformed rest then ErrFrameEncoding else e), fr0 ++ fr).
+Proof. exact handle_packet_first_error. Qed.
+Print Assumptions C15_packet_verdict.
+
 Example C15_packet_example :
-  snd (fst (handle_packet (g_init false 2 2) [GStream 8; GStream 0])) = Some ErrLimit /\
-  snd (fst (handle_packet (g_init false 2 2) [GPing; GStopSending 2; GStream 0; GStream 4])) = Some ErrState /\
-  i_nextOpen (s_ib (g_sm (fst (fst (handle_packet (g_init false 2 2) [GStream 8; GStream 0]))))) = 0.
+  snd (fst (handle_packet true (g_init false 2 2) [GStream 8; GStream 0])) = Some ErrLimit /\
+  snd (fst (handle_packet true (g_init false 2 2) [GPing; GStopSending 2; GStream 0; GStream 4])) = Some ErrState /\
+  i_nextOpen (s_ib (g_sm (fst (fst (handle_packet true (g_init false 2 2) [GStream 8; GStream 0]))))) = 0.
 Proof. vm_compute. repeat split; reflexivity. Qed.
 Print Assumptions C15_packet_example.
 
+(** OBSERVATION (refutes "always answered with STREAM_LIMIT_ERROR" for one corner, replayed on the
+    implementation by the streamsglue table): a stream beyond the limit followed by a malformed frame
+    in the same packet is answered with STREAM_LIMIT_ERROR without a qlog tracer and with
+    FRAME_ENCODING_ERROR with one (C08_tracer_changes_the_error is the same fact at the codec level).
+    The connection is closed in both cases and no stream is opened. *)
+Example C15_tracer_changes_the_error_class :
+  snd (fst (handle_packet false (g_init false 2 2) [GStream 8; GMalformed])) = Some ErrLimit /\
+  snd (fst (handle_packet true (g_init false 2 2) [GStream 8; GMalformed])) = Some ErrFrameEncoding /\
+  i_nextOpen (s_ib (g_sm (fst (fst (handle_packet true (g_init false 2 2) [GStream 8; GMalformed]))))) = 0.
+Proof. vm_compute. repeat split; reflexivity. Qed.
+Print Assumptions C15_tracer_changes_the_error_class.
+
 (** a stream completed through the connection: accepted, abandoned by the application, final size
     told by the peer's FIN - the MAX_STREAMS for the freed slot is queued by the packet that carries
-    the FIN, and the peer may then open one more stream *)
+    the FIN, and the peer may then open one more stream; without the abandon the slot stays taken *)
 Example C15_glue_completion_example :
-  snd (glue_run (g_init false 1 1)
-         [SPacket [GStream 0]; SApp (GAAccept false); SPacket [GStream 4]; SApp (GAAbandon 0);
-          SPacket [GStreamFin 0; GStream 4]]) =
-  [(0, []); (0, []); (ErrLimit, [])] \/
-  snd (glue_run (g_init false 1 1)
+  snd (glue_run false (g_init false 1 1)
+         [SPacket [GStream 0]; SApp (GAAccept false); SPacket [GStreamFin 0; GStream 4]]) =
+  [(0, []); (0, []); (ErrLimit, [])] /\
+  snd (glue_run false (g_init false 1 1)
          [SPacket [GStream 0]; SApp (GAAccept false); SApp (GAAbandon 0);
           SPacket [GStreamFin 0; GStream 4]]) =
   [(0, []); (0, []); (0, []); (0, [FMax false 2])].
-Proof. right. vm_compute. reflexivity. Qed.
+Proof. vm_compute. split; reflexivity. Qed.
 Print Assumptions C15_glue_completion_example.
 
 (** * Round 4 *)
@@ -389,7 +413,7 @@ Print Assumptions C15_reset_blocks_api.
 (** (c) through the connection glue: a client opens streams with restored parameters, 0-RTT is
     rejected, the application abandons an old stream (no effect), moves on, and the IDs start over. *)
 Example C15_glue_0rtt_example :
-  map fst (snd (glue_run (g_init true 2 2)
+  map fst (snd (glue_run false (g_init true 2 2)
     [SApp (GAParams 2 2 false); SApp (GAOpen false); SApp (GAOpen false); SApp GAReject0RTT;
      SApp (GAOpen false); SApp GAOldStream; SApp GAUseReset; SApp (GAOpen false);
      SApp (GAParams 1 1 false); SApp (GAOpen false); SApp (GAOpen false)])) =
